@@ -305,7 +305,13 @@ def generate(run, rng):
         if cfg["tg_span"] == "none" or rng.random() < 0.3:
             a = []
         else:
-            a = [0.0, top] if uni or rng.random() < 0.6 else [rng.choice([0.0, 1.0]), rng.choice([top / 2, top])]
+            k = rng.random()
+            if uni or k < 0.55:
+                a = [0.0, top]
+            elif k < 0.8:
+                a = [rng.choice([0.0, 1.0]), rng.choice([top / 2, top])]
+            else:  # a span given for one side only
+                a = rng.choice([[0.0, None], [None, top], [1.0, None], [None, top / 2]])
         run.do({"op": "Textgrid", "a": a, "out": h})
         return h
 
